@@ -2286,3 +2286,16 @@ package sarama
 //@   ensures[success_reports_the_messages_position] err == nil ==> (partition == msg.Partition && offset == msg.Offset) || (partition == -1 && offset == -1)
 // (the second case is an error event whose Err is nil, which the producer never emits)
 //@   nosafety
+
+// sendAndReceive (C14): the request is sent asking for a response exactly when the caller supplied a response object,
+// with that object's header version; the bytes delivered through this call's promise are decoded into that same
+// object with this request's version; a failed promise is returned as the error.
+//@ func (p protocolBody) version() pure
+//@ func (b *Broker) sendAndReceive(req, res) props C14
+//@   returns err
+//@   requires req != nil
+// (the ghost accounting of requests in flight is the callee's: passed through)
+//@   requires 0 <= b.queued && b.queued <= b.conf.Net.MaxOpenRequests - 1 && 0 <= b.holding && b.holding <= 1 && b.conf.Net.MaxOpenRequests >= 1
+//@   callsite Broker.send: requires[asks_for_a_response_iff_expected] $rb == req && $promiseResponse == (res != nil)
+//@   callsite versionedDecode: requires[decoded_into_the_callers_response] $in == res && $version == req.version()
+//@   nosafety
